@@ -134,11 +134,15 @@ inductive Fn1 where
   | copy          -- copy-seq, copy-tree on a flat list, (apply #'list x), (multiple-value-list (values-list x)),
                   -- (mapcar #'identity x), (map 'list #'identity x), (maplist #'car x), (coerce (coerce x 'vector) 'list)
   | dedup         -- (union x nil): the elements of x without repetitions (first occurrence kept)
+  | subst (new old : Val)          -- (substitute new old x): a fresh list (the code shares nsubstitute's loop)
+  | substIf (new : Val) (p : Pred) -- (substitute-if new p x)
   deriving DecidableEq, Repr
 
 def Fn1.app : Fn1 → List Val → List Val
   | .copy, xs => xs
   | .dedup, xs => xs.eraseDups
+  | .subst new old, xs => xs.map (fun x => if x = old then new else x)
+  | .substIf new p, xs => xs.map (fun x => if p.test x then new else x)
 
 /-- the elements of two lists taken alternately, as far as both lists reach -/
 def interleave : List Val → List Val → List Val
@@ -173,6 +177,35 @@ def vRplaca (v : Val) : List Val → Except Err (List Val)
 def vRplacd (ys : List Val) : List Val → Except Err (List Val)
   | [] => .error .type
   | x :: _ => .ok (x :: ys)
+
+/-- overwrite the front of `xs` with `vs`, as far as both reach (`replace`) -/
+def replaceFrom : List Val → List Val → List Val
+  | [], _ => []
+  | x :: xs, [] => x :: xs
+  | _ :: xs, v :: vs => v :: replaceFrom xs vs
+
+/-- destructive functions that overwrite ELEMENTS and keep the structure of the list (value level):
+    the new elements as a function of the old ones -/
+inductive FnD where
+  | fill (v : Val)                          -- (fill x v)
+  | subst (new old : Val)                   -- (nsubstitute new old x)
+  | substIf (new : Val) (p : Pred)          -- (nsubstitute-if new p x)
+  | mapInto (f : Fn)                        -- (map-into x f x)
+  | addNth (n : Nat) (d : Val)              -- (incf (nth n x) d), (incf (car x) d), decf = negative d
+  | replaceAt (s : Nat) (vs : List Val)     -- (replace x (list vs…) :start1 s)
+  deriving Repr
+
+def FnD.app : FnD → List Val → Except Err (List Val)
+  | .fill v, xs => .ok (xs.map (fun _ => v))
+  | .subst new old, xs => .ok (xs.map (fun x => if x = old then new else x))
+  | .substIf new p, xs => .ok (xs.map (fun x => if p.test x then new else x))
+  | .mapInto f, xs => .ok (xs.map f.app)
+  | .addNth n d, xs =>
+      match xs[n]? with
+      | some x => .ok (xs.set n (x + d))
+      | none => .error .type                -- (nth n x) is nil there: not a number
+  | .replaceAt s vs, xs =>
+      if s ≤ xs.length then .ok (xs.take s ++ replaceFrom (xs.drop s) vs) else .error .range
 
 /-! ## (A) the cons-cell heap -/
 
@@ -275,11 +308,14 @@ inductive Op where
   | nreverse (x : Ref)
   | sort (desc : Bool) (key : Option Fn) (x : Ref)   -- (sort x '< / '> [:key f])
   | delete (sp : RemSpec) (x : Ref)
+  | carmap (f : FnD) (x : Ref)           -- fill nsubstitute map-into replace, incf/decf of an element place
+  | nbutlast (n : Nat) (x : Ref)         -- the list is cut after its first (length - n) cells
   deriving Repr
 
 /-- documented as destructive (may write existing cells) -/
 def Op.destructive : Op → Bool
-  | .rplaca .. | .setNth .. | .rplacd .. | .nconc .. | .add .. | .nreverse .. | .sort .. | .delete .. => true
+  | .rplaca .. | .setNth .. | .rplacd .. | .nconc .. | .add .. | .nreverse .. | .sort .. | .delete ..
+  | .carmap .. | .nbutlast .. => true
   | _ => false
 
 /-- operations that only extend a list (never overwrite an element) -/
@@ -292,7 +328,7 @@ def Op.listArgs : Op → List Ref
   | .lit _ => []
   | .alias x | .cons _ x | .listStar _ _ x | .nthcdr _ x | .last _ x | .member _ _ x | .butlast _ x
   | .subseq _ _ x | .copyList x | .reverse x | .remove _ x | .mapcar _ x | .rplaca x _ | .setNth _ x _
-  | .add x _ | .nreverse x | .sort _ _ x | .delete _ x | .fresh1 _ x => [x]
+  | .add x _ | .nreverse x | .sort _ _ x | .delete _ x | .fresh1 _ x | .carmap _ x | .nbutlast _ x => [x]
   | .append x y | .rplacd x y | .nconc x y | .mapcar2 x y | .concat x y | .fresh2 _ x y | .revappend x y => [x, y]
 
 /-- `remove` on the cells `as` of the argument, `m` marking the positions to take out: as soon as
@@ -406,6 +442,14 @@ def run (h : Heap) : Op → Except Err (Heap × Ref)
       let as ← chainOf h x
       let ks := applyMask (maskOf sp (carsOf h as)) as
       .ok (linkCells h ks, refOf ks)
+  | .carmap f x => do
+      let as ← chainOf h x
+      let vs ← f.app (carsOf h as)
+      .ok (writeCars h as vs, x)
+  | .nbutlast n x => do
+      let as ← chainOf h x
+      let ks := as.take (as.length - n)
+      .ok (linkCells h ks, refOf ks)
 
 /-- the cells a destructive operation may write: everything reachable from its list arguments.
     (Non-destructive operations write no existing cell at all.) -/
@@ -456,5 +500,12 @@ def valueOf (op : Op) (xs ys : List Val) : Except Err (List Val) :=
   | .nreverse _ => .ok xs.reverse
   | .sort desc key _ => .ok (vSort desc key xs)
   | .delete sp _ => .ok (vRemove sp xs)
+  | .carmap f _ => f.app xs
+  | .nbutlast n _ => .ok (vButlast n xs)
+
+/-- Region bookkeeping of the correspondence driver: every region of `group` is merged into `blob`
+    (what a destructive step does to everything it could reach). -/
+def mergeRegs (regs group : List Nat) (blob : Nat) : List Nat :=
+  regs.map (fun g => if group.contains g then blob else g)
 
 end SlipVerif.ListHeap
